@@ -675,3 +675,47 @@ def rov_use(c, routes, states, w):
         raise vf.ToolError("rov_use_replay wrote no summary")
     c.cov["evaluations"] += summary["evaluations"]
     c.cov["parts"]["use"] = dict(summary, embeddings=len(embs))
+
+
+def llgr_marking(c):
+    """C09, 'LLGR-stale routes carry LLGR_STALE', for a peer with several prefixes: when a source enters the LLGR stale period every
+    route of it that a neighbour holds is sent again with the community - whichever prefix the table visits first.  Small
+    scripted histories on the real export pipeline (the C01 world): n prefixes from s1 (and a worse path from s2), delivered and
+    flushed; LLGR marking of s1; everything delivered and flushed; compared with a brand-new session."""
+    import C01
+    seqs = []
+    for scen in ("ebgp", "ibgp", "rs"):
+        for sendmax in (1, 2):
+            for n in (1, 2, 3):
+                for second in (False, True):
+                    ops = []
+                    for i in range(1, n + 1):
+                        ops.append(f"announce s1 p{i} x")
+                        if second and scen == "ebgp":
+                            ops.append(f"announce s2 p{i} y")
+                    ops += ["drain", "flush", "markllgr s1", "drain", "flush", "fresh"]
+                    seqs.append((f"llgr-{scen}-{sendmax}-{n}-{int(second)}", sendmax, ops, None, scen))
+    got = C01.run_harness("llgr", seqs)
+    bad = 0
+    for sid, sendmax, ops, _, scen in seqs:
+        n = len(ops)
+        marked = C01.rset(got[(sid, n - 1)]["state"]["mirror"])
+        fresh = C01.rset(got[(sid, n)]["state"]["mirror"])
+        notes = [got[(sid, i)]["note"] for i in range(1, n + 1) if got[(sid, i)]["note"]]
+        s1 = [r for r in marked if r[1] == "s1"]
+        detail = None
+        if notes:
+            detail = {"why": "harness: " + notes[0]}
+        elif any(not r[3] for r in s1):
+            detail = {"why": "a route of the LLGR-stale source is held by the neighbour without LLGR_STALE", "neighbour": marked}
+        elif marked != fresh:
+            detail = {"why": "after the marking the neighbour holds something else than a brand-new session is sent", "neighbour": marked,
+                      "brand_new_session": fresh}
+        elif not s1 and not ("announce s2 p1 y" in ops and sendmax == 1):
+            # (with a fresh path from s2 a plain session is sent that one: the stale source is least preferred)
+            raise vf.ToolError(f"llgr_marking {sid}: nothing of s1 reached the neighbour: {marked}")
+        if detail and bad < 3:
+            bad += 1
+            c.violation("prop.llgr_marking", dict(detail, scenario=sid, ops=ops), {"spec": "Propagation (LLGR marking)", "ops": ops, "scenario": sid})
+    c.cov["evaluations"] += len(seqs)
+    c.cov["parts"]["llgr_marking"] = {"histories": len(seqs)}
